@@ -62,6 +62,7 @@ type flowParams struct {
 	Apply           []string            `json:"apply"`            // live applies: "<kind>[+stale][+noauth]", kind in proc, twoprocs, conn, addproc; "||" prefix = concurrent with the previous one
 	Reconf          []string            `json:"reconf"`           // live reconfigure requests for processor "pp": "A", "B" (concurrent), "cancelA"
 	ProcOpenMenu    []string            `json:"proc_open_menu"`
+	GracefulFirst   bool                `json:"graceful_first"`    // Stop="force": a graceful stop is requested (and accepted) first, the force stop follows while it drains
 	ProcTeardownErr bool                `json:"proc_teardown_err"` // every processor Teardown reports an error (after doing its work)
 	Ctl             []string            `json:"ctl"`               // explicit control history (after "start"): stop, wait, stopwait, force, stopall, start; one at a time
 	SrcPositions    string              `json:"src_positions"`     // "" normal, "dup": record 1 repeats the position of record 0, "empty": record 1 has an empty position
@@ -134,6 +135,9 @@ func (p flowParams) name() string {
 	}
 	if p.ProcTeardownErr {
 		n += "/procteardownerr"
+	}
+	if p.GracefulFirst {
+		n += "/gracefulfirst"
 	}
 	if p.LateAckRecv {
 		n += "/lateackrecv"
@@ -320,9 +324,10 @@ func flowScenario(p flowParams) verifkit.Scenario {
 				spec = strings.TrimPrefix(spec, "||")
 				parts := strings.Split(spec, "+")
 				kind := parts[0]
-				stale, noauth := false, false
+				stale, stale2, noauth := false, false, false
 				for _, f := range parts[1:] {
 					stale = stale || f == "stale"
+					stale2 = stale2 || f == "stale2"
 					noauth = noauth || f == "noauth"
 				}
 				gen := fmt.Sprintf("g%d", ai+1)
@@ -372,6 +377,11 @@ func flowScenario(p flowParams) verifkit.Scenario {
 						mut := clonePipelineConfig(cur)
 						mut.Description = "changed-behind-the-plan"
 						if _, err := st.Pipelines.Update(x.Ctx, stack.PipelineID, pipeline.Config{Name: mut.Name, Description: mut.Description}); err != nil {
+							x.W.Log("ctl", "apply.mutate.err", ai+1, errStr(err))
+						}
+					}
+					if stale2 { // ... the intervening change hits ANOTHER field of the very resource the plan updates
+						if _, err := st.Processors.UpdateWhileRunning(x.Ctx, "pp", "pp", processor.Config{Settings: map[string]string{}, Workers: 2}); err != nil {
 							x.W.Log("ctl", "apply.mutate.err", ai+1, errStr(err))
 						}
 					}
@@ -464,6 +474,12 @@ func flowScenario(p flowParams) verifkit.Scenario {
 					x.W.Log("ctl", "persisterwait.ret", -1, "nil")
 				}})
 			case "force":
+				if p.GracefulFirst {
+					x.AddControl(&verifkit.Control{Name: "gstop", AfterPrevReturned: true, Do: func() {
+						err := st.LC.Stop(x.Ctx, stack.PipelineID, false)
+						x.W.Log("ctl", "gstop.ret", -1, errStr(err))
+					}})
+				}
 				x.AddControl(&verifkit.Control{Name: "force", AfterPrevReturned: true, Do: func() {
 					err := st.LC.Stop(x.Ctx, stack.PipelineID, true)
 					x.W.Log("ctl", "force.ret", -1, errStr(err))
